@@ -20,6 +20,7 @@ CONSTANTS
   GenConns = {"c2"}
   GenDefaults = {"a"}
   GenLiteOmit = {0}
+  GenFixedSub = {"all"}
   GenExtra = {"At", "Nest", "Deact", "Untouched"}
 CONSTRAINT Bound
 ACTION_CONSTRAINT EmitStep
